@@ -378,22 +378,25 @@ def finish(b, extra_cov=None):
         lines.append("KNOWN-FINDING: property=%s %s [%s, %d runs, e.g. %s]" % (prop, f.get("what"), fid, cnt, p))
     reported = {}
     min_budget = float(os.environ.get("VERIF_MINIMISE_S", 45))
+    classes = collections.OrderedDict()
     for i, case, out in unknown:
-        key = (out["verdict"]["class"], json.dumps(out["verdict"].get("sig", {}), sort_keys=True))
-        if key in reported:
-            reported[key][1] += 1
+        classes.setdefault(out["verdict"]["class"], []).append((i, case, out))
+    for cls, items in classes.items():
+        sigs = collections.Counter(json.dumps(o["verdict"].get("sig", {}), sort_keys=True) for _, _, o in items)
+        if len(reported) >= 6:
+            reported[cls] = [None, len(items), items[0][2], len(sigs)]
             continue
-        if len(reported) >= 4:
-            continue
+        i, case, out = items[0]
         try:
             mc, mo = minimise(mod, case, out, budget_s=min_budget)
         except Exception:
             mc, mo = case, out
         p = write_replay(prop, mc, mo)
-        reported[key] = [p, 1, mo]
-    for key, (p, cnt, mo) in reported.items():
+        reported[cls] = [p, len(items), mo, len(sigs)]
+    for cls, (p, cnt, mo, nsig) in reported.items():
         lines.append("VIOLATION property=%s replay=%s" % (prop, p))
-        lines.append("  class=%s runs=%d detail=%s" % (key[0], cnt, str(mo["verdict"].get("detail"))[:700]))
+        lines.append("  class=%s runs=%d distinct_signatures=%d sig=%s detail=%s" % (
+            cls, cnt, nsig, json.dumps(mo["verdict"].get("sig", {}), sort_keys=True)[:300], str(mo["verdict"].get("detail"))[:700]))
     nviol = len(unknown)
     write_evidence(b, nviol, len(b.violations) - nviol, extra_cov)
     for ln in lines:
